@@ -11,6 +11,7 @@ import (
 // wallet content: 1..maxProofs proofs of 2^0..2^maxExp on the active / the inactive keyset, fees from the property's set
 var vhFeeSet = []uint64{0, 100, 250, 500, 1000, 2000}
 var vhMinProofs = 1
+var vhForceKs []int
 
 func vhHoldings(maxProofs int, maxExp uint64) (*vhWalletEnv, v.Z, cashu.Proofs) {
 	ppkA := uint(v.PickU64(v.U64("ppk.active"), vhFeeSet...))
@@ -22,7 +23,12 @@ func vhHoldings(maxProofs int, maxExp uint64) (*vhWalletEnv, v.Z, cashu.Proofs) 
 	for i := 0; i < n; i++ {
 		e := v.U64(fmt.Sprintf("held%d.exp", i))
 		v.Assume(e <= maxExp)
-		ks := v.Int(fmt.Sprintf("held%d.inactive", i), 0, 1)
+		ks := 0
+		if vhForceKs != nil {
+			ks = vhForceKs[i]
+		} else {
+			ks = v.Int(fmt.Sprintf("held%d.inactive", i), 0, 1)
+		}
 		p := env.holdProof(i, ks, uint64(1)<<e)
 		held = append(held, p)
 		total = v.ZAdd(total, v.ZU(p.Amount))
@@ -93,6 +99,7 @@ func VHarnessSendWide() { vhSendStep(3, 4) }
 func VHarnessSendMixed3() {
 	vhFeeSet = []uint64{0, 1000}
 	vhMinProofs = 3
+	vhForceKs = []int{1, 0, 0}
 	vhSendStep(3, 2)
 }
 
